@@ -251,8 +251,10 @@ def visit_time_ranges(vobject_item: vobject.base.Component, child_name: str,
                     ) -> Tuple[Iterable[date], bool]:
         infinite = False
         for rrule in child.contents.get("rrule", []):
-            if (";UNTIL=" not in rrule.value.upper() and
-                    ";COUNT=" not in rrule.value.upper()):
+            # The rule parts may come in any order (rfc5545-3.3.10)
+            parts = rrule.value.upper().split(";")
+            if not any(part.startswith(("UNTIL=", "COUNT="))
+                       for part in parts):
                 infinite = True
                 break
         if infinite:
